@@ -28,11 +28,13 @@ def scenarios(seed, tier):
     rnd = random.Random(seed * 7919 + 15)
     for i in range(n):
         r2 = random.Random(rnd.getrandbits(48))
-        s = gen.gen_portfolio(r2, tmax=10 if tier == 'quick' else 16, tz_prob=0.1,
+        s = gen.gen_portfolio(r2, tmax=10 if tier == 'quick' else 16, tz_prob=0.1 if i % 6 != 5 else 1.0, tmin=2 if i % 6 != 5 else 8,
                               kinds=['simple', 'contract', 'transport', 'ext_transport', 'storage', 'storage2', 'multi', 'orderbook', 'plant', 'chp', 'scaled'])
         T = s['grid']['T_nominal']
         k = r2.randint(1, max(1, T - 1))
         mode = r2.choice(['prefix', 'prefix', 'subset', 'date'])
+        if i % 6 == 5:
+            mode = 'date'      # zone-aware grid (half of them across a daylight-saving switch), window given as a date
         if mode == 'prefix':
             mask = [j < k for j in range(T)]
         elif mode == 'subset':
@@ -66,6 +68,12 @@ def run_case(scn, drv):
         # date: all time points up to and including the date are fixed (as the code defines it)
         d = tg.timepoints[min(fx['k'], tg.T - 1)]
         I_arg = d.to_pydatetime()
+        if d.tzinfo is not None and fx['k'] % 2:
+            # the same instant written in another zone: a date is a point in time, not a wall-clock reading
+            I_arg = d.tz_convert('UTC').to_pydatetime()
+            feats.append('window-date-in-other-zone')
+        elif d.tzinfo is not None:
+            feats.append('window-date-in-grid-zone')
         mask = np.asarray(tg.timepoints <= d)
     else:
         mask = np.asarray(fx['mask'], dtype=bool)
